@@ -22,6 +22,14 @@ pub uninterp spec fn rat_denom(x: real) -> int;
 // of numer()/denom()
 
 
+/// the facts numer()/denom() expose, as a lemma about any BigRat value (trusted, A-bigrat)
+pub axiom fn axiom_rat_parts(x: &BigRat)
+    ensures
+        rat_denom(x@) > 0,
+        (rat_numer(x@) as real) == x@ * (rat_denom(x@) as real),
+        is_integral(x@) ==> rat_denom(x@) == 1,
+;
+
 impl BigRat {
     #[verifier::external_body]
     pub fn one() -> (r: BigRat)
@@ -66,6 +74,7 @@ impl BigRat {
             r@ == rat_numer(self@),
             rat_denom(self@) > 0,
             (r@ as real) == self@ * (rat_denom(self@) as real),
+            rat_denom(self@) == 1 ==> (r@ as real) == self@,
             is_integral(self@) ==> rat_denom(self@) == 1,
     {
         unimplemented!()
@@ -91,7 +100,10 @@ impl BigRat {
     }
 
     #[verifier::external_body]
-    pub fn as_float(&self) -> (r: f64) {
+    pub fn as_float(&self) -> (r: f64)
+        ensures
+            r == rat_as_float(self@),
+    {
         unimplemented!()
     }
 }
@@ -106,8 +118,17 @@ impl Clone for BigRat {
     }
 }
 
-/// finite floats only (BigRational::from_float(..).unwrap() panics otherwise)
-pub uninterp spec fn f64_is_finite(x: f64) -> bool;
+/// nearest float of a rational (opaque)
+pub uninterp spec fn rat_as_float(x: real) -> f64;
+
+/// `BigRat::from(f64)`: BigRational::from_float(value).unwrap() panics unless the float is finite (N11 target)
+#[verifier::external_body]
+pub fn vx_bigrat_from_f64(value: f64) -> (r: BigRat)
+    requires
+        f64_is_finite(value),
+{
+    unimplemented!()
+}
 
 impl vstd::std_specs::convert::FromSpecImpl<f64> for BigRat {
     open spec fn obeys_from_spec() -> bool {
